@@ -35,7 +35,7 @@ func checkC09(c *vkit.Ctx) {
 		return
 	}
 	lab := NewLab(p, "")
-	n := c.N(500, 15000)
+	n := c.N(2000, 100000)
 	for i := 0; i < n; i++ {
 		if !c.Mine(i) {
 			continue
